@@ -34,6 +34,16 @@ Proof.
   - right; right. split; [auto|]. apply Hsb; auto.
 Qed.
 
+(** A reception in progress is never left without a deadline: N_Cr runs, or the Flow Control
+    (ContinueToSend) whose emission starts it is pending. *)
+Theorem rx_live c s : reachable c s -> rx_state s = RxWaitCF ->
+  (timer_running (timer_rx_cf s) = true /\ t_timeout (timer_rx_cf s) = p_tcr_ns (c_p c)) \/
+  (pending_fc s = true /\ pending_fc_status s = Some FS_CTS).
+Proof.
+  intros Hr Hs. apply reachable_WF in Hr.
+  destruct (wf_rxlive c s Hr Hs) as [H|H]; [left; split; [exact H|apply (wf_tcr c s Hr)]|right; exact H].
+Qed.
+
 (** C07_idle: N_Cr only runs during a reception, N_Bs only while waiting for a Flow Control. *)
 Theorem timers_idle c s : reachable c s ->
   (rx_state s = RxIdle -> timer_running (timer_rx_cf s) = false) /\
